@@ -75,13 +75,14 @@ var scopes = []string{"top", "method-local", "method-param"}
 
 // nform is a narrowing form. wrap places the body where the variable `v` has the narrowed type.
 type nform struct {
-	name    string
-	family  string // signature family
-	neg     bool   // the body sees the complement type
-	newvar  string // the body works on this expression instead of x ("" = x); such forms admit no outer closures
-	exprV   bool   // newvar is an expression, not an assignable variable
-	nilOnly bool   // only meaningful for nilable declared types
-	wrap    func(d decl, t *tinfo, body []string) []string
+	name      string
+	family    string // signature family
+	neg       bool   // the body sees the complement type
+	newvar    string // the body works on this expression instead of x ("" = x); such forms admit no outer closures
+	exprV     bool   // newvar is an expression, not an assignable variable
+	nilOnly   bool   // only meaningful for nilable declared types
+	unionOnly bool   // only meaningful for unions of two value types
+	wrap      func(d decl, t *tinfo, body []string) []string
 }
 
 func ind(ls []string) []string {
@@ -172,6 +173,11 @@ func nforms() []nform {
 		{name: "switch x case T() else", family: "pattern", neg: true, wrap: func(d decl, t *tinfo, b []string) []string {
 			return cat("switch x", "case "+d.prim.abs+"()", ind(marker), "else", ind(b), "end")
 		}},
+		// a variable bound in the LEFT alternative of `p || q` is nil when the right alternative matched, so its static
+		// type must be nilable: x is given the value of the other kind first, the probe asserts the left kind on y
+		{name: "switch x case (O() as y) || T()", family: "pattern-alternative-binding", neg: true, newvar: "y", unionOnly: true, wrap: func(d decl, t *tinfo, b []string) []string {
+			return cat("x = "+d.prim.val, "switch x", "case ("+d.other.abs+"() as y) || "+d.prim.abs+"()", ind(b), "end")
+		}},
 		// forms that produce a new value of the narrowed type
 		{name: "y := x ?? dflt", family: "nil-coalesce", newvar: "y", wrap: func(d decl, t *tinfo, b []string) []string {
 			return cat("y := x ?? "+d.prim.val2, b)
@@ -228,6 +234,10 @@ func gen(d decl, scope string, nf nform, inv, pos, kind string) prog {
 	p := prog{target: t, family: nf.family, form: nf.name}
 	if nf.nilOnly && !d.nilable {
 		p.skip = "form needs a nilable type"
+		return p
+	}
+	if nf.unionOnly && d.nilable {
+		p.skip = "form needs a union of two value types"
 		return p
 	}
 	v := "x"
